@@ -30,7 +30,7 @@ func init() {
 			for r := 0; r < reps; r++ {
 				for _, dir := range []string{"forward", "reverse"} {
 					for _, fc := range []string{"on", "bothnofc"} {
-						for _, pt := range []string{"client.finish.afterDone", "client.finish.betweenPublish", "client.cancel.beforeReceiverCancel"} {
+						for _, pt := range []string{"client.finish.afterDone", "client.finish.betweenPublish", "client.cancel.beforeReceiverCancel", "client.recv.beforeAccept"} {
 							for _, cause := range []string{"cancel", "deadline"} {
 								for _, shape := range []string{"ServerStream", "Bidi", "Unary"} {
 									cfg := WorldCfg{Dir: dir}
